@@ -1,5 +1,109 @@
-"""thorough tier extras (Kani leaf harnesses, self-test mutants); filled in by later waves"""
+"""thorough tier extras (DESIGN §3.4): Kani leaf harnesses on the compiled code, witness search with the
+larger bounds on the real crates, and the self-test (seeded mutants that the check is known to detect
+must still be detected)."""
+import glob
+import json
+import os
+import re
+import subprocess
+import tempfile
+import time
+
+import runner
+
+
+def run_kani():
+    d = os.path.join(runner.VERIF, "kani_leaf")
+    lock = os.path.join(runner.REPO, "Cargo.lock")
+    if not os.path.exists(lock):
+        lock = "/repo/Cargo.lock"
+    subprocess.run(["cp", lock, os.path.join(d, "Cargo.lock")])
+    env = dict(os.environ, CARGO_NET_OFFLINE="true", CARGO_TARGET_DIR=os.path.join(runner.TOOLS, "kani-target"))
+    t0 = time.time()
+    try:
+        p = subprocess.run(["cargo", "kani"], cwd=d, env=env, capture_output=True, text=True, timeout=1800)
+    except subprocess.TimeoutExpired:
+        return dict(kani=True, undecided=["kani: timeout"], verified=0, errors=0)
+    out = p.stdout + p.stderr
+    m = re.search(r"Complete - (\d+) successfully verified harnesses, (\d+) failures, (\d+) total", out)
+    res = dict(kani=True, cmd="cargo kani (kani_leaf, CBMC, loop-free full-domain harnesses)", wall_s=round(time.time() - t0, 1), failures=[], undecided=[])
+    if not m:
+        res["undecided"].append("kani produced no summary: " + out[-300:])
+        res["verified"] = 0
+        res["errors"] = 0
+        return res
+    ok, bad, total = int(m.group(1)), int(m.group(2)), int(m.group(3))
+    res["verified"] = ok
+    res["errors"] = bad
+    res["harnesses"] = re.findall(r"Checking harness (\S+?)\.\.\.", out)
+    if bad:
+        for h in re.findall(r"Checking harness (\S+?)\.\.\.(?:(?!Checking harness).)*?VERIFICATION:- FAILED", out, re.S):
+            res["failures"].append(dict(id="kani." + h, function=h, message="Kani harness failed (CBMC counterexample)", where="kani_leaf/src/lib.rs",
+                                        slice="kani_leaf", rendered=out[-3000:], tagged=True, slice_line=None, text=""))
+    return res
+
+
+def run_search(family):
+    tool = runner.build_replay_tool()
+    if not tool:
+        return dict(search=family, undecided=["replay tool did not build"], verified=0, errors=0)
+    outp = os.path.join(runner.BUILD, "thorough_witness_%s.json" % family)
+    if os.path.exists(outp):
+        os.remove(outp)
+    t0 = time.time()
+    try:
+        p = subprocess.run([tool, "search", family, "--tier", "thorough"], capture_output=True, text=True, timeout=3000,
+                           env=dict(os.environ, REPLAY_OUT=outp))
+    except subprocess.TimeoutExpired:
+        return dict(search=family, undecided=[], note="witness search timed out (not deciding)", verified=0, errors=0)
+    res = dict(search=family, wall_s=round(time.time() - t0, 1), verified=0, errors=0, failures=[], undecided=[],
+               note="enumerative search on the real crates against the executable transcription of the spec; never the deciding step")
+    if p.returncode == 1 and os.path.exists(outp):
+        w = json.load(open(outp))
+        res["failures"].append(dict(id="search.%s.%s" % (family, re.sub(r"\W+", "_", w["disagreement"].get("what", "disagreement"))[:60]),
+                                    function=w["op"].get("kind"), message="real code disagrees with the reference on a concrete input: " + w["disagreement"].get("what", ""),
+                                    where="tools/replay", slice="replay:" + family, rendered=json.dumps(w["disagreement"])[:2000], tagged=True,
+                                    slice_line=None, text="", witness=w))
+        res["errors"] = 1
+    return res
+
+
+def run_selftest(prop):
+    """every stored seeded mutant of this property that is recorded as detected must still be detected"""
+    out = dict(selftest=True, verified=0, errors=0, failures=[], undecided=[], mutants=[])
+    for meta_path in sorted(glob.glob(os.path.join(runner.VERIF, "seeded", "*", "meta.json"))):
+        meta = json.load(open(meta_path))
+        if prop not in meta.get("detected_by", []):
+            continue
+        d = os.path.dirname(meta_path)
+        wt = "/var/tmp/verif_selftest_wt_%d" % os.getpid()
+        scratch = tempfile.mkdtemp(prefix="verif_selftest_", dir="/var/tmp")
+        try:
+            head = subprocess.run(["git", "-C", "/repo", "rev-parse", "HEAD"], capture_output=True, text=True).stdout.strip()
+            subprocess.run(["git", "-C", "/repo", "worktree", "add", "-q", "--detach", wt, head], check=True)
+            a = subprocess.run(["git", "-C", wt, "apply", os.path.join(d, "patch.diff")], capture_output=True, text=True)
+            if a.returncode != 0:
+                out["mutants"].append(dict(id=os.path.basename(d), result="patch no longer applies"))
+                continue
+            env = dict(os.environ, VERIF_REPO=wt, VERIF_BUILD=os.path.join(scratch, "build"), VERIF_EVIDENCE_DIR=os.path.join(scratch, "ev"),
+                       VERIF_REPLAY_DIR=os.path.join(scratch, "rp"), VERIF_TIER="quick")
+            r = subprocess.run([os.path.join(runner.VERIF, "check"), prop, "--tier", "quick"], capture_output=True, text=True, env=env)
+            detected = r.returncode == 1
+            out["mutants"].append(dict(id=os.path.basename(d), result="detected" if detected else "NOT detected (rc=%d)" % r.returncode))
+            if not detected:
+                out["undecided"].append("self-test: seeded mutant %s is no longer detected by check %s" % (os.path.basename(d), prop))
+        finally:
+            subprocess.run(["git", "-C", "/repo", "worktree", "remove", "--force", wt], capture_output=True)
+            subprocess.run(["rm", "-rf", scratch, wt])
+    return out
 
 
 def run(prop, cfg, results):
-    return []
+    extra = []
+    if cfg.get("kani"):
+        extra.append(run_kani())
+    if cfg.get("witness_family") and not os.environ.get("VERIF_REPO"):
+        extra.append(run_search(cfg["witness_family"]))
+    if not os.environ.get("VERIF_REPO"):
+        extra.append(run_selftest(prop))
+    return extra
